@@ -1123,6 +1123,19 @@ def register(M):
     @ext('numpy.concatenate', 'numpy.hstack', 'numpy.append')
     def _concat(interp, args, kw, node):
         parts = args[0] if len(args) == 1 else args
+        parts = list(interp.iterate(parts, node)) if not isinstance(parts, (list, tuple)) else list(parts)
+        if any(isinstance(p, IndexSet) for p in parts):
+            # integer index arrays from np.where(...)[0]: the union of the positions, each under its own condition
+            items = []
+            for p in parts:
+                if isinstance(p, IndexSet):
+                    items.extend(p.items)
+                else:
+                    v = as_vec(interp, p, node)
+                    if v is None or not all(X.is_num(e.d) for e in v.els()):
+                        raise AnalysisError('concatenate of an index set with a non-constant array', node)
+                    items.extend((int(e.d[1]), X.TRUE) for e in v.els())
+            return IndexSet(items)
         vs = [as_vec(interp, p, node) for p in parts]
         if any(v is None for v in vs):
             raise AnalysisError('concatenate of non-arrays', node)
